@@ -15,12 +15,24 @@ def assume(self, cond):
     if not state["dead"] and not smt.feasible(self.state.pc, 3000):
         state["dead"] = True
         print("INFEASIBLE AFTER ASSUMING:", str(cond)[:600])
+        import z3
+        sol = z3.Solver(); sol.set("timeout", 20000)
+        ps = []
+        for i, c in enumerate(self.state.pc):
+            p = z3.Bool("core%d" % i); ps.append(p); sol.add(z3.Implies(p, c))
+        r = sol.check(*ps)
+        print("  z3 says", r)
+        if r == z3.unsat:
+            core = sol.unsat_core()
+            for p in core:
+                i = int(str(p)[4:]); print("   CORE:", str(self.state.pc[i])[:300].replace("\n", " "))
         st = traceback.extract_stack(limit=9)
         print("   at", " <- ".join("%s:%d" % (f.name, f.lineno) for f in reversed(st[:-1])))
 P.Engine.assume = assume
 orig = P.Engine.explore
 def explore(self, run_once):
     def wrapped():
+        state["dead"] = False
         try:
             run_once()
         except P.PathEnd as e:
